@@ -166,10 +166,12 @@ impl Feat {
         }
     }
     fn sig(&self, family: &str, version: u8, lw: &str, tail: &str) -> String {
+        // Under a taint the archive may be damaged in arbitrary ways, so the *kind* of symptom (open error, wrong bytes,
+        // missing listing ...) is not a stable feature: one signature per trigger predicate.
         if let Some(t) = self.taint() {
-            format!("{family}|{t}")
+            format!("after|{t}")
         } else if let Some(p) = self.name_pred(lw) {
-            format!("{family}|{p}")
+            format!("after|{p}")
         } else {
             format!("{family}|v{version}|last={lw}|{tail}")
         }
